@@ -22,6 +22,8 @@ fn setup(ctx: &mut Ctx) {
     ctx.floor("absent:passes-bloom+occupied-bucket", 200);
     ctx.floor("absent:hash-differs-only-in-bit0", 20);
     ctx.floor("absent:same-hash-as-present", 20);
+    ctx.floor("absent:prefix-of-present-with-same-hash", 20);
+    ctx.floor("present:extension-with-same-hash-as-its-prefix", 20);
     ctx.floor("unhashed-symbol-name-none", 100);
     ctx.floor("name:duplicate", 100);
     ctx.floor("name:high-bytes", 100);
@@ -112,6 +114,9 @@ fn well_formed(ctx: &mut Ctx) {
     }
     for n in names.iter().skip(so) {
         ctx.eval();
+        if n.len() >= 8 && ref_gnu_hash(&n[..n.len() - 7]) | 1 == ref_gnu_hash(n) | 1 {
+            ctx.count("present:extension-with-same-hash-as-its-prefix");
+        }
         if n.iter().any(|b| *b >= 0x80) {
             ctx.count("name:high-bytes");
         }
@@ -168,6 +173,9 @@ fn well_formed(ctx: &mut Ctx) {
         }
         if hashes.contains(&h) {
             ctx.count("absent:same-hash-as-present");
+            if names.iter().skip(so).any(|n| n.len() > a.len() && n.starts_with(&a) && ref_gnu_hash(n) == h) {
+                ctx.count("absent:prefix-of-present-with-same-hash");
+            }
         } else if hashes.contains(&(h ^ 1)) {
             ctx.count("absent:hash-differs-only-in-bit0");
         }
